@@ -7,7 +7,7 @@
    implementation hands to its Signer / MACer / Encryptor are compared with the model's on every case. *)
 From Coq Require Import String.
 From Coq Require Import NArith ZArith List Bool.
-From Cose Require Import Lib.Base Lib.Cbor Model.GoVal Model.Wire Model.MsgLogic Model.Nonce Model.Msg Model.MsgProofs Spec.RFC9052 Gen.SlicesGen Model.SlicesProofs.
+From Cose Require Import Lib.Base Lib.Cbor Model.GoVal Model.Wire Model.MsgLogic Model.Nonce Model.Msg Model.MsgProofs Spec.RFC9052 Gen.SlicesGen Model.SlicesProofs Lib.GoSem Model.HdrSem Gen.LookupGen Model.LookupProofs.
 Import ListNotations.
 
 Theorem C04_sign1_structure : forall pb ext pl sp,
@@ -139,3 +139,23 @@ Proof. vm_compute. split; reflexivity. Qed.
 Theorem C04_primitive_is_handed_the_structure : prim_calls = expected_prim_calls.
 Proof. exact primitives_get_the_structure. Qed.
 Print Assumptions C04_primitive_is_handed_the_structure.
+
+(* ---- the source of COSE_Sign production: the loop of SignMessage.WithSign over the signers (regenerated statement by
+   statement on every run, Gen/LookupGen.cose_SignMessage_WithSign_loop, translator T16) makes, for every signer, the
+   two buckets from that signer's key alone and signs the Sig_structure of (encoded body bucket, the entry's own encoded
+   protected bucket, external data, payload); the first failing signer ends the call; nothing follows the loop but the
+   installation of the wire struct *)
+Theorem C04_with_sign_loop_source_is_model : forall ps ext pb payload,
+  cose_SignMessage_WithSign_loop ps ext pb payload = sign_entries ps pb ext payload.
+Proof. exact gen_with_sign_loop. Qed.
+Print Assumptions C04_with_sign_loop_source_is_model.
+
+Theorem C04_with_sign_loop_source_is_sign_all : forall ps ext pb payload, Forall signer_buckets_encodable ps ->
+  sign_all ps pb ext payload
+  = do l <- cose_SignMessage_WithSign_loop ps ext pb payload; match all_some (map enc_sigout l) with Some bs => Ok bs | None => Err end.
+Proof. exact gen_with_sign_loop_is_sign_all. Qed.
+Print Assumptions C04_with_sign_loop_source_is_sign_all.
+
+Theorem C04_with_sign_nothing_after_the_loop : cose_SignMessage_WithSign_after_loop = ["m.mm = mm"%string; "return nil"%string].
+Proof. exact with_sign_after_loop. Qed.
+Print Assumptions C04_with_sign_nothing_after_the_loop.
